@@ -177,6 +177,16 @@ def generate(repo, out_path):
         errors.append(f"ops.py: {ex}")
         text += "Definition src_disable_extensions_restores : unit := tt.\n"
     q = os.path.join(repo, "optimum/quanto")
+    # aten ops with in-place semantics (trailing underscore) that have a quantized implementation registered
+    try:
+        import gen_ops
+
+        tabs = gen_ops.read_tables(repo)
+        inplace = sorted(o for key in ("qbytes", "qbits") for _, ops, _ in tabs[key] for o in ops if o.endswith("_"))
+        text += "Definition src_inplace_ops : list string := [" + "; ".join(coq_str(o) for o in inplace) + "].\n"
+    except Exception as ex:  # noqa: BLE001
+        errors.append(f"op tables: {ex}")
+        text += "Definition src_inplace_ops : unit := tt.\n"
     for rel, qual, name in PURE_FUNCS:
         try:
             tree = ast.parse(open(os.path.join(q, rel)).read())
